@@ -219,6 +219,23 @@ func (w *Worker) Step(format string, a ...any) {
 	w.steps = append(w.steps, line)
 }
 
+// Trace writes a line to the step log file only (when one is configured): what is about to be tried, so that an
+// abrupt end of the process leaves a record of it. It does not touch the execution's fingerprint or step count.
+func (w *Worker) Trace(format string, a ...any) {
+	if w.steplog == nil {
+		return
+	}
+	n, _ := fmt.Fprintf(w.steplog, "%d> %s\n", w.Runs, fmt.Sprintf(format, a...))
+	if w.steplogN += n; w.steplogRing > 0 && w.steplogN > w.steplogRing {
+		_ = w.steplog.Truncate(0)
+		_, _ = w.steplog.Seek(0, 0)
+		w.steplogN = 0
+	}
+}
+
+// Tracing reports whether Trace writes anywhere (so callers can skip formatting large arguments).
+func (w *Worker) Tracing() bool { return w.steplog != nil }
+
 // Note appends to the log without counting a step.
 func (w *Worker) Note(format string, a ...any) {
 	w.steps = append(w.steps, "  "+fmt.Sprintf(format, a...))
